@@ -17,10 +17,14 @@ REPO = os.environ.get("PYVC_REPO", "/repo")
 
 
 def run_native(scenario, witness, timeout=120):
+    timeout = timeout * 4   # wall-clock guard only; generous so that a loaded machine does not turn a replay into an error
     env = dict(os.environ)
     env["PYTHONPATH"] = REPO + os.pathsep + VERIF
-    p = subprocess.run([sys.executable, "-m", "replay.scenarios", scenario, json.dumps(witness, default=str)],
-                       capture_output=True, text=True, cwd=REPO, env=env, timeout=timeout)
+    try:
+        p = subprocess.run([sys.executable, "-m", "replay.scenarios", scenario, json.dumps(witness, default=str)],
+                           capture_output=True, text=True, cwd=REPO, env=env, timeout=timeout)
+    except subprocess.TimeoutExpired:
+        return {"reproduced": False, "error": f"native scenario {scenario} did not finish within {timeout}s"}
     last = [l for l in p.stdout.strip().splitlines() if l.startswith("{")]
     if p.returncode != 0 or not last:
         return {"reproduced": False, "error": (p.stderr or p.stdout)[-3000:]}
